@@ -151,6 +151,9 @@ type Outcome struct {
 	Labels     []string // classification labels (histogram in evidence)
 	Excluded   []string // known-finding ids whose region was avoided while generating this case
 	Inconclusive bool   // budget/time-out style outcome: counted, never a violation
+	// ReplayJSON, if set on a failing outcome, is saved as the replay case instead of the generated
+	// case (checks that can cut a failing case down themselves, e.g. one scenario out of a batch).
+	ReplayJSON []byte
 }
 
 type Collector struct {
@@ -360,6 +363,7 @@ type Spec[T any] struct {
 	Thorough int // cases per shard, thorough tier
 	Gen      func(t *rapid.T) T
 	Exec     func(c T) Outcome
+	NoShrink bool // expensive cases that minimise themselves (Outcome.ReplayJSON): skip rapid's shrinking
 }
 
 // Check runs spec under rapid with the derived seed; a failing case is shrunk by rapid, and the last
@@ -376,6 +380,9 @@ func Check[T any](t *testing.T, spec Spec[T]) {
 	_ = flag.Set("rapid.seed", strconv.FormatUint(RapidSeed(spec.Sub), 10))
 	_ = flag.Set("rapid.nofailfile", "true")
 	_ = flag.Set("rapid.shrinktime", Env("VERIF_SHRINKTIME", "20s"))
+	if spec.NoShrink {
+		_ = flag.Set("rapid.shrinktime", "1ms")
+	}
 	var lastJSON []byte
 	var lastMsg string
 	defer func() {
@@ -393,6 +400,9 @@ func Check[T any](t *testing.T, spec Spec[T]) {
 		C.Record(js, o)
 		if o.Fail != "" {
 			lastJSON, lastMsg = js, o.Fail
+			if o.ReplayJSON != nil {
+				lastJSON = o.ReplayJSON
+			}
 			rt.Fatalf("%s", o.Fail)
 		}
 	})
